@@ -554,6 +554,8 @@ def diff_terms(a, b):
         else:
             # both canonical: hand the solver the normal form of the difference
             d = rsub(x, y)
+            if rzero(d):
+                continue  # identical normal forms
             dis.append(tz(d) != 0)
     side = denominators_nonzero(a, b)
     # atoms that remain in the common monomial with positive exponent multiply both sides:
